@@ -77,17 +77,27 @@ public class Prim {
     if (x.testBit(0) != odd) x = P.subtract(x).mod(P);
     return x;
   }
-  private static BigInteger[] edAdd(BigInteger[] a, BigInteger[] b) { // affine twisted Edwards addition (complete)
-    BigInteger x1=a[0],y1=a[1],x2=b[0],y2=b[1];
-    BigInteger t = D.multiply(x1).multiply(x2).mod(P).multiply(y1).multiply(y2).mod(P);
-    BigInteger x3 = x1.multiply(y2).add(x2.multiply(y1)).mod(P).multiply(BigInteger.ONE.add(t).modInverse(P)).mod(P);
-    BigInteger y3 = y1.multiply(y2).add(x1.multiply(x2)).mod(P).multiply(BigInteger.ONE.subtract(t).mod(P).modInverse(P)).mod(P);
-    return new BigInteger[]{x3,y3};
+  // extended coordinates (X:Y:Z:T), a = -1, unified addition (Hisil-Wong-Carter-Dawson 2008), complete on ed25519
+  private static final BigInteger D2 = D.shiftLeft(1).mod(P);
+  private static BigInteger[] ext(BigInteger[] a) { return new BigInteger[]{a[0], a[1], BigInteger.ONE, a[0].multiply(a[1]).mod(P)}; }
+  private static BigInteger[] extAdd(BigInteger[] p, BigInteger[] q) {
+    BigInteger A = p[1].subtract(p[0]).multiply(q[1].subtract(q[0])).mod(P);
+    BigInteger B = p[1].add(p[0]).multiply(q[1].add(q[0])).mod(P);
+    BigInteger C = p[3].multiply(D2).mod(P).multiply(q[3]).mod(P);
+    BigInteger Dd = p[2].shiftLeft(1).multiply(q[2]).mod(P);
+    BigInteger E = B.subtract(A), F = Dd.subtract(C), G = Dd.add(C), H = B.add(A);
+    return new BigInteger[]{E.multiply(F).mod(P), G.multiply(H).mod(P), F.multiply(G).mod(P), E.multiply(H).mod(P)};
   }
+  private static BigInteger[] toAffine(BigInteger[] e) {
+    BigInteger zi = e[2].modInverse(P);
+    return new BigInteger[]{e[0].multiply(zi).mod(P), e[1].multiply(zi).mod(P)};
+  }
+  private static BigInteger[] edAdd(BigInteger[] a, BigInteger[] b) { return toAffine(extAdd(ext(a), ext(b))); }
   private static BigInteger[] edMul(BigInteger k, BigInteger[] p) {
-    BigInteger[] r = new BigInteger[]{BigInteger.ZERO, BigInteger.ONE};
-    for (int i = k.bitLength()-1; i >= 0; i--) { r = edAdd(r, r); if (k.testBit(i)) r = edAdd(r, p); }
-    return r;
+    BigInteger[] r = new BigInteger[]{BigInteger.ZERO, BigInteger.ONE, BigInteger.ONE, BigInteger.ZERO};
+    BigInteger[] pe = ext(p);
+    for (int i = k.bitLength()-1; i >= 0; i--) { r = extAdd(r, r); if (k.testBit(i)) r = extAdd(r, pe); }
+    return toAffine(r);
   }
   private static BigInteger[] basePoint() {
     BigInteger y = BigInteger.valueOf(4).multiply(BigInteger.valueOf(5).modInverse(P)).mod(P);
